@@ -65,6 +65,7 @@ type scen struct {
 	WAL        bool  `json:"wal"`
 	LagReplica bool  `json:"lag_replica"` // r2 is stopped during the drop and restarted afterwards
 	LateJoin   bool  `json:"late_join"`   // r3 joins after the last drop
+	RestartP   bool  `json:"restart_primary"` // the primary restarts between the last write and the drop (Open leaves a shared-memory file behind, in either journal mode)
 }
 
 func runScen(c *common.Ctx, sc scen, r *common.Rand, cf *common.CaseFile) error {
@@ -129,6 +130,21 @@ func runScen(c *common.Ctx, sc scen, r *common.Rand, cf *common.CaseFile) error 
 		if sc.LagReplica && cyc == 0 {
 			if n := clu.Node("r2"); n != nil {
 				n.Stop()
+			}
+		}
+		if sc.RestartP {
+			at := dbPos(p.Store)
+			p.Stop()
+			if p, err = clu.Start("p", true); err != nil {
+				c.Violate("C15:restart-primary", fmt.Sprintf("the primary cannot restart: %v", err), rep("restart-primary"))
+				return nil
+			}
+			deadline := time.Now().Add(6 * time.Second)
+			for !p.Store.IsPrimary() && time.Now().Before(deadline) {
+				time.Sleep(2 * time.Millisecond)
+			}
+			if !p.Store.IsPrimary() || dbPos(p.Store) != at {
+				return fmt.Errorf("primary after restart: primary=%v at %v want %v", p.Store.IsPrimary(), dbPos(p.Store), at)
 			}
 		}
 		// drop on the primary
@@ -254,12 +270,14 @@ func Run(c *common.Ctx) error {
 		{Cycles: 1, PageSizes: []int{512, 1024}},
 		{Cycles: 2, PageSizes: []int{1024, 512}, WAL: true, LagReplica: true, LateJoin: true},
 		{Cycles: 3, PageSizes: []int{512}, WAL: true},
+		{Cycles: 2, PageSizes: []int{512}, RestartP: true},
+		{Cycles: 1, PageSizes: []int{4096}, WAL: true, RestartP: true, LateJoin: true},
 	}
 	if c.Thorough() {
 		for i := 0; i < 30; i++ {
 			r := c.Rng.Fork()
 			pss := [][]int{{512}, {4096}, {512, 4096}, {1024, 512, 2048}}[r.Intn(4)]
-			scens = append(scens, scen{Cycles: 1 + r.Intn(3), PageSizes: pss, WAL: r.Bool(), LagReplica: r.Bool(), LateJoin: r.Bool()})
+			scens = append(scens, scen{Cycles: 1 + r.Intn(3), PageSizes: pss, WAL: r.Bool(), LagReplica: r.Bool(), LateJoin: r.Bool(), RestartP: r.Chance(30)})
 		}
 	}
 	for _, sc := range scens {
